@@ -1031,3 +1031,182 @@ func loopBodyOf(l ast.Node) *ast.BlockStmt {
 	}
 	return nil
 }
+
+func init() {
+	register(&core.Rule{ID: "coded-read-error-kept", Run: codedReadErrorKept,
+		Doc: "Where the error of a read from the transport (io.Copy/CopyN/ReadFull/ReadAtLeast/ReadFrom/discard whose source is the unmarshaler's reader field or the call itself) is wrapped into a new coded error, the path has first established with asError that it is not already a *Error: the client's transport reader hands back cancellation and expiry already coded, and re-wrapping turns them into invalid_argument or unknown."})
+}
+
+func codedReadErrorKept(c *core.Ctx) {
+	p := c.P
+	info := p.Connect.TypesInfo
+	// transport sources: io.Reader-typed fields of first-party unmarshaler/reader structs, and values of
+	// first-party types that implement io.Reader themselves (the duplex call)
+	isTransport := func(e ast.Expr) bool {
+		e = astx.Unparen(e)
+		if f := astx.FieldOf(info, e); f != nil && astx.TypeIs(f.Type(), "io", "Reader") && f.Pkg() == p.Connect.Types {
+			return true
+		}
+		if t := info.TypeOf(e); t != nil {
+			if nt := astx.NamedOf(derefType(t)); nt != nil && nt.Obj().Pkg() == p.Connect.Types {
+				if _, isStruct := nt.Underlying().(*types.Struct); isStruct {
+					for i := 0; i < nt.NumMethods(); i++ {
+						if isReadSig(nt.Method(i)) {
+							return true
+						}
+					}
+				}
+			}
+		}
+		return false
+	}
+	sites := 0
+	for _, fd := range p.AllFuncDecls(p.Connect) {
+		name := core.FuncName(fd)
+		// locals that alias or wrap a transport source (reader := u.reader; reader = io.LimitReader(u.reader, n))
+		wraps := map[types.Object]bool{}
+		ast.Inspect(fd.Body, func(x ast.Node) bool {
+			as, ok := x.(*ast.AssignStmt)
+			if !ok || len(as.Lhs) != len(as.Rhs) {
+				return true
+			}
+			for i, r := range as.Rhs {
+				r = astx.Unparen(r)
+				src := r
+				if call, ok := r.(*ast.CallExpr); ok && astx.IsPkgFunc(astx.Callee(info, call), "io", "LimitReader") && len(call.Args) == 2 {
+					src = call.Args[0]
+				}
+				if isTransport(src) {
+					if o := astx.ObjOf(info, as.Lhs[i]); o != nil {
+						wraps[o] = true
+					}
+				}
+			}
+			return true
+		})
+		fromTransport := func(e ast.Expr) bool {
+			if isTransport(e) {
+				return true
+			}
+			o := astx.ObjOf(info, astx.Unparen(e))
+			return o != nil && wraps[o]
+		}
+		// read calls and the variable that receives their error
+		type read struct {
+			call *ast.CallExpr
+			err  types.Object
+		}
+		var reads []read
+		ast.Inspect(fd.Body, func(x ast.Node) bool {
+			as, ok := x.(*ast.AssignStmt)
+			if !ok || len(as.Rhs) != 1 {
+				return true
+			}
+			call, ok := astx.Unparen(as.Rhs[0]).(*ast.CallExpr)
+			if !ok {
+				return true
+			}
+			callee := astx.Callee(info, call)
+			src := -1
+			switch {
+			case astx.IsPkgFunc(callee, "io", "Copy"), astx.IsPkgFunc(callee, "io", "CopyN"):
+				src = 1
+			case astx.IsPkgFunc(callee, "io", "ReadFull"), astx.IsPkgFunc(callee, "io", "ReadAtLeast"), astx.IsPkgFunc(callee, "io", "ReadAll"):
+				src = 0
+			default:
+				if f, ok := callee.(*types.Func); ok {
+					if f.Name() == "ReadFrom" && astx.TypeIs(recvType(f), "bytes", "Buffer") {
+						src = 0
+					}
+					if f.Name() == "discard" && f.Pkg() == p.Connect.Types {
+						src = 0
+					}
+				}
+			}
+			if src < 0 || src >= len(call.Args) || !fromTransport(call.Args[src]) {
+				return true
+			}
+			if eo := astx.ObjOf(info, as.Lhs[len(as.Lhs)-1]); eo != nil {
+				reads = append(reads, read{call, eo})
+			}
+			return true
+		})
+		if len(reads) == 0 {
+			continue
+		}
+		// wrap sites: errorf(code, "...%w...", err) / NewError(code, err) with err from a transport read
+		idx := 0
+		for _, call := range astx.CallsDeep(fd.Body) {
+			f := astx.CalleeFunc(info, call)
+			if f == nil || f.Pkg() != p.Connect.Types || (f.Name() != "errorf" && f.Name() != "NewError") {
+				continue
+			}
+			var errObj types.Object
+			for _, a := range call.Args[1:] {
+				for _, r := range reads {
+					if astx.ObjOf(info, astx.Unparen(a)) == r.err {
+						errObj = r.err
+					}
+				}
+			}
+			if errObj == nil {
+				continue
+			}
+			idx++
+			sites++
+			key := fmt.Sprintf("wrap/%s#%d", name, idx)
+			paths, bad := 0, 0
+			_, trunc := astx.ForEachPathTo(info, fd.Body, call, func(s *astx.State) {
+				// only paths on which the variable still holds the read's error
+				holds := false
+				for _, r := range reads {
+					if r.err == errObj && s.AnyStep(func(n ast.Node) bool { return astx.Contains(n, r.call) }) {
+						holds = true
+					}
+				}
+				if !holds {
+					return
+				}
+				paths++
+				checked := false
+				for _, st := range s.Steps {
+					as, ok := st.(*ast.AssignStmt)
+					if !ok || len(as.Lhs) != 2 || len(as.Rhs) != 1 {
+						continue
+					}
+					ac, ok := astx.Unparen(as.Rhs[0]).(*ast.CallExpr)
+					if !ok || len(ac.Args) != 1 || astx.ObjOf(info, ac.Args[0]) != errObj {
+						continue
+					}
+					if af := astx.CalleeFunc(info, ac); af == nil || af.Name() != "asError" {
+						continue
+					}
+					okObj := astx.ObjOf(info, as.Lhs[1])
+					if okObj != nil && s.TookBranch(func(e ast.Expr, pol bool) bool { return astx.ObjOf(info, e) == okObj && !pol }) {
+						checked = true
+					}
+				}
+				// identified as the end of the stream: not a cancellation
+				if s.HasFact(func(e ast.Expr, pol bool) bool {
+					x, target, ok := astx.IsErrorsIs(info, e)
+					return ok && pol && astx.ObjOf(info, x) == errObj && astx.IsPkgVar(info, target, "io", "EOF")
+				}) {
+					checked = true
+				}
+				if !checked {
+					bad++
+				}
+			})
+			if trunc {
+				c.Undecided(key, call.Pos(), "path enumeration truncated")
+				continue
+			}
+			if paths == 0 {
+				sites--
+				continue
+			}
+			c.Check(bad == 0, key, call.Pos(), "%s wraps the transport read error %s into a new coded error on %d path(s), %d of them without having handed an already coded error on unchanged", name, errObj.Name(), paths, bad)
+		}
+	}
+	c.Floor("re-coded transport read errors", sites, 4)
+}
